@@ -138,7 +138,7 @@ func BuildClassList(classes ...any) (string, error) {
 			return "", fmt.Errorf("goht: invalid class type: %T", class)
 		}
 	}
-	return strings.Join(classList, ` `), nil
+	return html.EscapeString(strings.Join(classList, ` `)), nil
 }
 
 func BuildAttributeList(attributes ...any) (string, error) {
@@ -197,7 +197,7 @@ func ObjectID(obj any, prefix ...string) string {
 		s = append(s, v.ObjectClass())
 	}
 	s = append(s, ref.ObjectID())
-	return strings.Join(s, "_")
+	return html.EscapeString(strings.Join(s, "_"))
 }
 
 func ObjectClass(obj any, prefix ...string) string {
